@@ -28,6 +28,7 @@ Props(k, p) == [k |-> k, p |-> p]
 NP(ls, k, p) == [labels |-> ls, props |-> Props(k, p)]
 NoSrc == [kind |-> "none"]
 Match(np) == [kind |-> "match", n |-> np]
+MatchWith(np) == [kind |-> "matchwith", n |-> np]
 Match2(a, b) == [kind |-> "match2", n |-> a, m |-> b]
 MatchRel(a, t, b) == [kind |-> "matchrel", n |-> a, m |-> b, t |-> t]
 Unwind(l) == [kind |-> "unwind", list |-> l]
@@ -131,7 +132,13 @@ C04Stmts ==
                 W(MatchRel(NA, "T", NB), Delete("m", FALSE), <<>>),
                 W(MatchRel(NA, "T", NB), Delete("n", TRUE), <<>>),
                 W(Match(NB), Set(<<SetP("k", [e |-> "propadd", key |-> "p", v |-> "i1"])>>), <<RetProp("n", "k")>>),
-                W(Unwind(<<"i2", "i1">>), Merge(NP(<<"A">>, X, None), <<SetP("p", X)>>, <<SetL("B")>>), <<RetProp("n", "p")>>)}
+                W(Unwind(<<"i2", "i1">>), Merge(NP(<<"A">>, X, None), <<SetP("p", X)>>, <<SetL("B")>>), <<RetProp("n", "p")>>),
+                \* the same writes behind a WITH (planned as a clause pipeline)
+                W(MatchWith(NA), Set(<<SetP("k", Lit("i2"))>>), <<RetProp("n", "k")>>),
+                W(MatchWith(NB), Rem(<<RemP("k"), RemL("B")>>), <<>>),
+                W(MatchWith(NA), Delete("n", FALSE), <<>>),
+                W(MatchWith(NB), Delete("n", TRUE), <<>>),
+                W(MatchWith(NA), Set(<<SetL("B")>>), <<>>)}
           ELSE {})
 
 \* ------------------------------------------------------------------ next-state relation
@@ -141,7 +148,7 @@ Candidates ==
     CASE Mode = "C11" -> C11Stmts
       [] Mode = "C05" -> IF phase = 0 THEN C05Setup \cup (IF hist = <<>> THEN {} ELSE C05Faulty) ELSE {}
       [] Mode = "C04" -> C04Stmts
-IsFaulty(st) == Mode = "C05" /\ st \in C05Faulty
+IsFaulty(st) == Mode = "C05" /\ st.kind = "write" /\ st.src.kind # "none"     \* (= st \in C05Faulty, without building the set)
 
 \* would the evaluator run out of ids? (the bounded universes are a model artefact, not behaviour)
 NewNodesPerRow(w) == CASE w.kind = "create" -> 1
@@ -152,7 +159,8 @@ Fits(st, rows) == /\ Cardinality(LiveN(G)) + NewNodesPerRow(st.w) * Len(rows) <=
                   /\ Cardinality(LiveE(G)) + (IF st.w.kind = "createrel" THEN Len(rows) ELSE 0) <= MaxE
 
 DoStmt ==
-    \E st \in Candidates :
+    /\ Len(hist) < MaxHist             \* (a guard rather than a CONSTRAINT: nothing is computed beyond the bound)
+    /\ \E st \in Candidates :
         /\ hist' = Append(hist, [op |-> "Stmt", st |-> st])
         /\ phase' = IF IsFaulty(st) THEN 1 ELSE phase
         /\ IF st.kind = "constraint"
@@ -162,9 +170,9 @@ DoStmt ==
            ELSE \E rows \in RowTables(G, st.src) :
                     /\ Fits(st, rows)
                     /\ LET r == Exec(G, st, rows) IN
-                       \/ Stmt(st, rows, r.err, IF r.err THEN G ELSE r.g) /\ last' = [err |-> r.err, st |-> st]
+                       \/ StmtR(r, r.err, IF r.err THEN G ELSE r.g) /\ last' = [err |-> r.err, st |-> st]
                        \/ /\ "KF_C05_RowByRowApply" \in UseKF
-                          /\ KF_C05_RowByRowApply(st, rows, TRUE, r.g) /\ last' = [err |-> TRUE, st |-> st]
+                          /\ KF_C05_RowByRowApplyR(r, TRUE, r.g) /\ last' = [err |-> TRUE, st |-> st]
 
 Next == DoStmt
 Spec == Init /\ [][Next]_vars
